@@ -78,7 +78,7 @@ def generate(rng, repo_root, config="A", opts=None):
     fault_kinds = []
     if config == "B":
         pool = ["F-reject-len", "F-reject-range", "F-reject-type", "F-crash-line", "F-solver-raise",
-                "F-reject-notimpl"]
+                "F-reject-notimpl", "F-alpha-raise"]
         fault_kinds = [k for k in pool if rng.random() < 0.6] or [rng.choice(pool)]
     nfaults = 0 if config == "A" else rng.choice([1, 1, 2, 3])
     spaced = rng.random() < 0.7
@@ -206,6 +206,11 @@ def _draw_fault_op(rng, fk, k, ospec, fluids, grids, last_grid=None):
         if target == "interp":
             return {"op": "interp", "obj": k, "fault": {"kind": "F-crash-line", "at": at}}
         return {"op": "rf", "obj": k, "density": target == "rfd", "fault": {"kind": "F-crash-line", "at": at}}
+    if fk == "F-alpha-raise":
+        # the shared fluid's diffusivity lookup raises part-way through the run (a dependency of simulate other
+        # than the linear solver); the ideal class never calls it, so there this is simply a plain simulate
+        return {"op": "simulate", "obj": k, "grid": g, "sched": None,
+                "fault": {"kind": "F-alpha-raise", "call": rng.randrange(1, max(2, 2 * n))}}
     if fk == "F-solver-raise":
         call = rng.randrange(0, max(1, n - 1))
         return {"op": "simulate", "obj": k, "grid": g, "sched": None,
@@ -359,6 +364,31 @@ class Runner:
                     finally:
                         if seams.CRASH.where is not None:
                             fired = ("F-crash-line", seams.CRASH.where)
+                elif fault and fault["kind"] == "F-alpha-raise":
+                    fl = getattr(res, "fluid", None)
+                    orig_alpha = getattr(fl, "alpha", None) if fl is not None else None
+                    if orig_alpha is None:
+                        val = thunk()
+                    else:
+                        cnt = {"n": 0}
+
+                        def failing_alpha(*a, **k):
+                            cnt["n"] += 1
+                            if cnt["n"] == int(fault["call"]):
+                                cnt["fired"] = True
+                                raise ValueError("injected: diffusivity lookup failed")
+                            return orig_alpha(*a, **k)
+
+                        try:
+                            fl.alpha = failing_alpha
+                            val = thunk()
+                        finally:
+                            try:
+                                fl.alpha = orig_alpha
+                            except Exception:  # noqa: BLE001
+                                pass
+                            if cnt.get("fired"):
+                                fired = ("F-alpha-raise", "fluid.alpha")
                 elif fault and fault["kind"] == "F-solver-raise":
                     seams.SOLVER.begin(plan={int(fault["call"]): fault}, keep_matrices=False)
                     try:
@@ -498,7 +528,7 @@ class Runner:
                 s.append(k)
 
             self._last_interp = None
-            out_r, fired = self._call(real, op, fault if fault and fault["kind"] in ("F-crash-line", "F-solver-raise") else None)
+            out_r, fired = self._call(real, op, fault if fault and fault["kind"] in ("F-crash-line", "F-solver-raise", "F-alpha-raise") else None)
             st_r = self._state(real)
             # an interpolator, once built, is a function: later recovery / interpolator calls must not change
             # what it returns (tracked until the next simulate attempt on that object)
@@ -518,7 +548,7 @@ class Runner:
                                       **self._ctx(k, last_sim_kind)})
                 if self._last_interp is not None and out_r.ok:
                     live_interps[k].append((self._last_interp, out_r.val))
-            injected = fault is not None and fault["kind"] in ("F-crash-line", "F-solver-raise")
+            injected = fault is not None and fault["kind"] in ("F-crash-line", "F-solver-raise", "F-alpha-raise")
             if fault is not None and not injected:
                 # natural rejection: count it as fired when the library actually raised
                 if not out_r.ok:
@@ -626,8 +656,8 @@ class Runner:
                         survivors, first_diff, first_f = [], None, None
                         self.count("B2-between" if pending_fail[k] else ("A-read" if not ever_failed[k] else "B1-read"))
                         need_undo = len(cands[k]) > 1 or pending_fail[k]
-                        for c in cands[k]:
-                            saved = copy.deepcopy(c.__dict__) if need_undo else None
+                        for ci, c in enumerate(list(cands[k])):
+                            saved = copy.deepcopy(c) if need_undo else None
                             out_f, _ = self._call(c, op, None)
                             d = self._out_eq(out_r, out_f)
                             if d is None:
@@ -640,8 +670,7 @@ class Runner:
                                 if first_diff is None:
                                     first_diff, first_f = d, out_f
                                 if saved is not None:
-                                    c.__dict__.clear()
-                                    c.__dict__.update(saved)
+                                    cands[k][ci] = saved   # undo the mirrored read on a candidate that did not match
                         if survivors:
                             cands[k] = survivors
                         elif pending_fail[k] and not out_r.ok:
@@ -981,6 +1010,10 @@ def shrink_candidates(scn):
             c = copy.deepcopy(scn)
             c["ops"][i]["density"] = False
             yield c
+        if op.get("container"):
+            c = copy.deepcopy(scn)
+            c["ops"][i].pop("container")
+            yield c
         if op["op"] == "repeat":
             continue
         f = op.get("fault")
@@ -1011,6 +1044,14 @@ def shrink_candidates(scn):
                     break
                 op["sched"]["v"] = op["sched"]["v"][:want]
         if ok:
+            yield c
+    # plain grid values (same lengths): A = 0.1*i, B = 0.05 + 0.15*i, C = 0.2*i
+    for g, (a0, da) in (("A", (0.0, 0.1)), ("B", (0.05, 0.15)), ("C", (0.0, 0.2))):
+        tt = scn["grids"][g]["t"]
+        plain = [a0 + da * i for i in range(len(tt))]
+        if tt != plain and scn["grids"][g].get("dtype") is None:
+            c = copy.deepcopy(scn)
+            c["grids"][g] = {"family": "plain", "t": plain}
             yield c
     # simplest fluid
     for i, f in enumerate(scn["fluids"]):
